@@ -84,7 +84,8 @@ def body_wsgi_response(I, X, method="GET", lens=(1, 2), preset="absent", kinds=N
     if bool(no_cl_status):
         ok = pand(ok, cl is None)
     elif bool(peq(status, 304)):
-        pass  # entity headers are stripped, nothing to compare
+        # entity headers are stripped and no length is computed for a response that sends no body
+        ok = pand(ok, cl is None)
     else:
         if preset == "absent":
             # the computed length is the number of body bytes the response produces for GET
